@@ -12,6 +12,7 @@
 //!                                   -> OK rendered TypeErr text
 //!   lexerr <line> <pos> <hexsrc>    -> OK rendered LexErr text
 //!   width <sl> <sp> <el> <ep>       -> OK decimal
+//!   core <hex sexpr>                -> OK text printed by the real Display for Core
 //!   asop <hexid>                    -> OK Debug(token)
 //!   c2p <hexid>                     -> OK concrete_to_python(id)
 //!   lexnew <sl> <sp> <kind> <hexstr> -> OK `el\tep` for Lex::new(start, Str/DocStr/Id(str))
@@ -22,6 +23,7 @@ use std::path::PathBuf;
 use mamba::check::result::TypeErr;
 use mamba::common::position::{CaretPos, Position};
 use mamba::common::result::{WithCause, WithSource};
+use mamba::generate::ast::node::Core;
 use mamba::parse::verif_hooks as lx;
 use mamba::{mamba_to_python, PipelineArguments};
 
@@ -48,6 +50,103 @@ fn lex_line(l: &lx::Lex) -> String {
         l.pos.end.pos
     )
     .replace('\n', "\\n")
+}
+
+// ---- tiny s-expression reader for Core values: (Add (Id a) (Int 1)) ----
+fn sx_tokens(s: &str) -> Vec<String> {
+    s.replace('(', " ( ")
+        .replace(')', " ) ")
+        .split_whitespace()
+        .map(String::from)
+        .collect()
+}
+
+fn sx_core(t: &[String], i: &mut usize) -> Result<Core, String> {
+    if t.get(*i).map(String::as_str) != Some("(") {
+        return Err(format!("expected ( at {}", *i));
+    }
+    *i += 1;
+    let head = t.get(*i).ok_or("eof")?.clone();
+    *i += 1;
+    let mut kids: Vec<Core> = vec![];
+    let mut atoms: Vec<String> = vec![];
+    while t.get(*i).map(String::as_str) != Some(")") {
+        if t.get(*i).map(String::as_str) == Some("(") {
+            kids.push(sx_core(t, i)?);
+        } else {
+            atoms.push(t.get(*i).ok_or("eof")?.clone());
+            *i += 1;
+        }
+    }
+    *i += 1;
+    let b = |k: &Vec<Core>, n: usize| -> Result<Box<Core>, String> {
+        k.get(n).cloned().map(Box::from).ok_or(format!("{head}: missing child {n}"))
+    };
+    let a = |n: usize| -> Result<String, String> {
+        atoms.get(n).cloned().ok_or(format!("{head}: missing atom {n}"))
+    };
+    macro_rules! bin {
+        ($v:ident) => {
+            Core::$v { left: b(&kids, 0)?, right: b(&kids, 1)? }
+        };
+    }
+    macro_rules! un {
+        ($v:ident) => {
+            Core::$v { expr: b(&kids, 0)? }
+        };
+    }
+    Ok(match head.as_str() {
+        "Id" => Core::Id { lit: a(0)? },
+        "Int" => Core::Int { int: a(0)? },
+        "Float" => Core::Float { float: a(0)? },
+        "Str" => Core::Str { string: a(0)? },
+        "ENum" => Core::ENum { num: a(0)?, exp: a(1)? },
+        "Bool" => Core::Bool { boolean: a(0)? == "true" },
+        "None" => Core::None,
+        "UnderScore" => Core::UnderScore,
+        "Ge" => bin!(Ge),
+        "Geq" => bin!(Geq),
+        "Le" => bin!(Le),
+        "Leq" => bin!(Leq),
+        "Is" => bin!(Is),
+        "IsN" => bin!(IsN),
+        "Eq" => bin!(Eq),
+        "Neq" => bin!(Neq),
+        "IsA" => bin!(IsA),
+        "And" => bin!(And),
+        "Or" => bin!(Or),
+        "Add" => bin!(Add),
+        "Sub" => bin!(Sub),
+        "Mul" => bin!(Mul),
+        "Mod" => bin!(Mod),
+        "Pow" => bin!(Pow),
+        "Div" => bin!(Div),
+        "FDiv" => bin!(FDiv),
+        "BAnd" => bin!(BAnd),
+        "BOr" => bin!(BOr),
+        "BXOr" => bin!(BXOr),
+        "BLShift" => bin!(BLShift),
+        "BRShift" => bin!(BRShift),
+        "In" => bin!(In),
+        "Not" => un!(Not),
+        "AddU" => un!(AddU),
+        "SubU" => un!(SubU),
+        "Sqrt" => un!(Sqrt),
+        "BOneCmpl" => un!(BOneCmpl),
+        "Return" => un!(Return),
+        "Ternary" => Core::Ternary { cond: b(&kids, 0)?, then: b(&kids, 1)?, el: b(&kids, 2)? },
+        "AnonFun" => Core::AnonFun { body: b(&kids, 0)?, args: kids[1..].to_vec() },
+        "FunctionCall" => Core::FunctionCall { function: b(&kids, 0)?, args: kids[1..].to_vec() },
+        "PropertyCall" => Core::PropertyCall { object: b(&kids, 0)?, property: b(&kids, 1)? },
+        "Index" => Core::Index { item: b(&kids, 0)?, range: b(&kids, 1)? },
+        "Tuple" => Core::Tuple { elements: kids.clone() },
+        "TupleLiteral" => Core::TupleLiteral { elements: kids.clone() },
+        "List" => Core::List { elements: kids.clone() },
+        "Set" => Core::Set { elements: kids.clone() },
+        "KeyValue" => Core::KeyValue { key: b(&kids, 0)?, value: b(&kids, 1)? },
+        "Comprehension" => Core::Comprehension { expr: b(&kids, 0)?, col: b(&kids, 1)?, conds: kids[2..].to_vec() },
+        other => return Err(format!("unknown Core variant {other}")),
+    })
 }
 
 fn handle(line: &str) -> Result<String, String> {
@@ -143,6 +242,14 @@ fn handle(line: &str) -> Result<String, String> {
                 _ => return Err(String::from("unknown caret op")),
             };
             Ok(format!("{} {}", r.line, r.pos))
+        }
+        "core" => {
+            // core <hex s-expression> -> the real Display output (one trailing newline stripped)
+            let t = sx_tokens(&unhex(f[1]));
+            let mut i = 0;
+            let c = sx_core(&t, &mut i)?;
+            let out = format!("{c}");
+            Ok(out.strip_suffix('\n').unwrap_or(&out).to_string())
         }
         "asop" => Ok(format!("{:?}", lx::verif_as_op_or_id(unhex(f[1])))),
         "c2p" => Ok(mamba::check::context::clss::concrete_to_python(&unhex(f[1]))),
